@@ -32,6 +32,7 @@ type tokLoop struct {
 	idx, ch    ssa.Value
 	body, done *ssa.BasicBlock
 	header     *ssa.BasicBlock
+	subst      map[ssa.Value]ssa.Value // parameters of a helper being evaluated -> the caller's values
 }
 
 func findStringRangeLoop(fn *ssa.Function) *tokLoop {
@@ -92,6 +93,9 @@ func (tl *tokLoop) tokAtom(v ssa.Value) (name string, neg bool) {
 		return ok && n == 1
 	}
 	who := func(x ssa.Value) string {
+		if y, ok := tl.subst[x]; ok {
+			x = y
+		}
 		if c, ok := x.(*ssa.Convert); ok {
 			if _, isBasic := c.Type().Underlying().(*types.Basic); isBasic && c.X == tl.ch {
 				x = c.X
@@ -187,6 +191,7 @@ func tokFeasible(m map[string]bool) bool {
 // set of event sequences (one per way the unknown conditions can go) and the unknown conditions met
 func (tl *tokLoop) tokRun(p *Prog, from, fromPred *ssa.BasicBlock, stop func(*ssa.BasicBlock) bool, val map[string]bool, lenAfterFlush bool) (outcomes map[string]bool, unknown map[string]bool, why string) {
 	outcomes, unknown = map[string]bool{}, map[string]bool{}
+	takenPred := map[*ssa.BasicBlock]*ssa.BasicBlock{} // block -> the predecessor it was entered from on the current path
 	var evalV func(v ssa.Value, at, pred *ssa.BasicBlock, env map[string]bool, depth int) int
 	evalV = func(v ssa.Value, at, pred *ssa.BasicBlock, env map[string]bool, depth int) int {
 		if depth > 8 {
@@ -209,6 +214,69 @@ func (tl *tokLoop) tokRun(p *Prog, from, fromPred *ssa.BasicBlock, stop func(*ss
 			return 0
 		}
 		switch x := v.(type) {
+		case *ssa.Call:
+			// a boolean helper of the repository applied to the loop's values: evaluate its body
+			if g := x.Call.StaticCallee(); g != nil && p.IsRepoFn(g) && g.Blocks != nil && isBoolType(x.Type()) && depth < 4 {
+				saved := tl.subst
+				ns := map[ssa.Value]ssa.Value{}
+				for k, v := range saved {
+					ns[k] = v
+				}
+				for i, a := range x.Call.Args {
+					if i < len(g.Params) {
+						if y, ok := saved[a]; ok {
+							a = y
+						}
+						ns[g.Params[i]] = a
+					}
+				}
+				tl.subst = ns
+				res := -2
+				var run func(b, pr *ssa.BasicBlock, n int)
+				run = func(b, pr *ssa.BasicBlock, n int) {
+					if n > 40 || res == -1 {
+						res = -1
+						return
+					}
+					old, had := takenPred[b]
+					takenPred[b] = pr
+					defer func() {
+						if had {
+							takenPred[b] = old
+						} else {
+							delete(takenPred, b)
+						}
+					}()
+					switch t := b.Instrs[len(b.Instrs)-1].(type) {
+					case *ssa.Return:
+						v := evalV(t.Results[0], b, pr, env, depth+1)
+						if v < 0 || res >= 0 && res != v {
+							res = -1
+						} else {
+							res = v
+						}
+					case *ssa.Jump:
+						run(b.Succs[0], b, n+1)
+					case *ssa.If:
+						switch evalV(t.Cond, b, pr, env, depth+1) {
+						case 1:
+							run(b.Succs[0], b, n+1)
+						case 0:
+							run(b.Succs[1], b, n+1)
+						default:
+							res = -1
+						}
+					default:
+						res = -1
+					}
+				}
+				run(g.Blocks[0], nil, 0)
+				tl.subst = saved
+				if res >= 0 {
+					return res
+				}
+				return -1
+			}
 		case *ssa.UnOp:
 			if x.Op == token.NOT {
 				if r := evalV(x.X, at, pred, env, depth+1); r >= 0 {
@@ -216,6 +284,13 @@ func (tl *tokLoop) tokRun(p *Prog, from, fromPred *ssa.BasicBlock, stop func(*ss
 				}
 			}
 		case *ssa.Phi:
+			if tp, ok := takenPred[x.Block()]; ok && tp != nil {
+				for i, pb := range x.Block().Preds {
+					if pb == tp {
+						return evalV(x.Edges[i], tp, nil, env, depth+1)
+					}
+				}
+			}
 			if x.Block() == at && pred != nil {
 				for i, pb := range at.Preds {
 					if pb == pred {
@@ -227,30 +302,52 @@ func (tl *tokLoop) tokRun(p *Prog, from, fromPred *ssa.BasicBlock, stop func(*ss
 		return -1
 	}
 	steps := 0
-	var walk func(b, pred *ssa.BasicBlock, ev string, env map[string]bool, visited map[*ssa.BasicBlock]int)
-	walk = func(b, pred *ssa.BasicBlock, ev string, env map[string]bool, visited map[*ssa.BasicBlock]int) {
+	type resume struct {
+		b, pred *ssa.BasicBlock
+		idx     int
+	}
+	var walkAt func(b, pred *ssa.BasicBlock, start int, ev string, env map[string]bool, visited map[*ssa.BasicBlock]int, stack []resume)
+	walkAt = func(b, pred *ssa.BasicBlock, start int, ev string, env map[string]bool, visited map[*ssa.BasicBlock]int, stack []resume) {
 		steps++
 		if steps > 20000 || why != "" {
 			why = "iteration too large to evaluate"
 			return
 		}
-		if stop(b) {
-			outcomes[ev] = true
-			return
+		if start == 0 {
+			if len(stack) == 0 && stop(b) {
+				outcomes[ev] = true
+				return
+			}
+			if visited[b] > 1 {
+				why = "the iteration contains an inner loop"
+				return
+			}
+			visited[b]++
+			defer func() { visited[b]-- }()
+			oldp, hadp := takenPred[b]
+			takenPred[b] = pred
+			defer func() {
+				if hadp {
+					takenPred[b] = oldp
+				} else {
+					delete(takenPred, b)
+				}
+			}()
 		}
-		if visited[b] > 1 {
-			why = "the iteration contains an inner loop"
-			return
-		}
-		visited[b]++
-		defer func() { visited[b]-- }()
-		for _, ins := range b.Instrs {
+		for i := start; i < len(b.Instrs); i++ {
+			ins := b.Instrs[i]
 			call, ok := ins.(*ssa.Call)
 			if !ok {
 				if st, ok := ins.(*ssa.Store); ok {
-					// stores into fresh varargs arrays are part of append; anything else is an effect
+					// stores into fresh varargs arrays and the store of an append result back into its slice
+					// variable are part of the append; anything else is an effect
 					if ia, ok := st.Addr.(*ssa.IndexAddr); ok {
 						if _, ok := ia.X.(*ssa.Alloc); ok {
+							continue
+						}
+					}
+					if c, ok := st.Val.(*ssa.Call); ok {
+						if bi, ok := c.Call.Value.(*ssa.Builtin); ok && bi.Name() == "append" {
 							continue
 						}
 					}
@@ -261,9 +358,6 @@ func (tl *tokLoop) tokRun(p *Prog, from, fromPred *ssa.BasicBlock, stop func(*ss
 			if bi, ok := call.Call.Value.(*ssa.Builtin); ok {
 				if bi.Name() == "append" {
 					ev += "F"
-					if env["len>0"] && !lenAfterFlush {
-						// the token was appended: a Reset follows (checked as an event below)
-					}
 				}
 				continue
 			}
@@ -285,6 +379,17 @@ func (tl *tokLoop) tokRun(p *Prog, from, fromPred *ssa.BasicBlock, stop func(*ss
 				env["len>0"] = false
 			case "(*strings.Builder).String", "(*strings.Builder).Len", "unicode.IsDigit", "unicode.IsLetter", "unicode.IsSpace", "unicode.ToLower", "unicode.IsUpper", "unicode.IsLower":
 			default:
+				if p.IsRepoFn(f) && f.Blocks != nil {
+					if isBoolType(call.Type()) {
+						continue // a predicate: evaluated where its result is branched on
+					}
+					if f.Signature.Results().Len() == 0 && len(stack) < 3 {
+						// a local closure or helper without a result (flush): its body is part of the iteration
+						ns := append(append([]resume{}, stack...), resume{b, pred, i + 1})
+						walkAt(f.Blocks[0], nil, 0, ev, env, visited, ns)
+						return
+					}
+				}
 				ev += "X"
 			}
 		}
@@ -293,23 +398,28 @@ func (tl *tokLoop) tokRun(p *Prog, from, fromPred *ssa.BasicBlock, stop func(*ss
 		case *ssa.If:
 			switch evalV(t.Cond, b, pred, env, 0) {
 			case 1:
-				walk(b.Succs[0], b, ev, env, visited)
+				walkAt(b.Succs[0], b, 0, ev, env, visited, stack)
 			case 0:
-				walk(b.Succs[1], b, ev, env, visited)
+				walkAt(b.Succs[1], b, 0, ev, env, visited, stack)
 			default:
 				unknown[p.Pos(t.Cond.Pos())+" "+t.Cond.String()] = true
-				walk(b.Succs[0], b, ev, env, visited)
-				walk(b.Succs[1], b, ev, env, visited)
+				walkAt(b.Succs[0], b, 0, ev, env, visited, stack)
+				walkAt(b.Succs[1], b, 0, ev, env, visited, stack)
 			}
 		case *ssa.Jump:
-			walk(b.Succs[0], b, ev, env, visited)
+			walkAt(b.Succs[0], b, 0, ev, env, visited, stack)
 		case *ssa.Return:
+			if n := len(stack); n > 0 {
+				top := stack[n-1]
+				walkAt(top.b, top.pred, top.idx, ev, env, visited, stack[:n-1])
+				return
+			}
 			outcomes[ev+"$"] = true
 		default:
 			why = "unexpected terminator"
 		}
 	}
-	walk(from, fromPred, "", copyEnv(val), map[*ssa.BasicBlock]int{})
+	walkAt(from, fromPred, 0, "", copyEnv(val), map[*ssa.BasicBlock]int{}, nil)
 	return
 }
 
